@@ -21,7 +21,8 @@ Flags == [i1 : BOOLEAN, i2 : BOOLEAN, order12 : BOOLEAN, pd1 : BOOLEAN, ef1 : BO
           redef : {"none", "same", "different", "main-different", "main-same", "bare-same", "bare-different", "main-bare-different"},   \* bare: declared with an empty (null) body
           cycle : {"none", "n1-main", "n1-i1", "i1-i1"},
           parentV : BOOLEAN, dotenv1 : BOOLEAN, cenv : BOOLEAN,
-          efn : BOOLEAN, dotenvn : BOOLEAN, pdn : BOOLEAN]     \* on the nested include i1 -> n1: declared env_file, a .env beside n1, project_directory
+          efn : BOOLEAN, dotenvn : BOOLEAN, pdn : BOOLEAN,
+          csib : BOOLEAN]     \* i1 also includes a file whose path differs from its own only by letter case (INC1/compose.yaml): no cycle     \* on the nested include i1 -> n1: declared env_file, a .env beside n1, project_directory
 Sane(f) == /\ (f.i1 \/ f.i2)
            /\ (f.pd1 => f.i1 /\ ~f.n1from1 /\ f.cycle = "none")          \* with project_directory = root the nested relative include would not resolve
            /\ (f.ef1 => f.i1) /\ (f.n1from1 => f.i1) /\ (f.n1from2 => f.i2)
@@ -31,10 +32,12 @@ Sane(f) == /\ (f.i1 \/ f.i2)
            /\ (f.cycle \in {"n1-main", "n1-i1"} => f.n1from1) /\ (f.cycle = "i1-i1" => f.i1)
            /\ (~f.i1 => ~f.dotenv1 /\ ~f.order12 /\ ~f.cenv)
            /\ (f.efn \/ f.pdn => f.n1from1 /\ f.cycle = "none") /\ (f.dotenvn => f.n1from1 \/ f.n1from2)
+           /\ (f.csib => f.i1 /\ f.cycle = "none" /\ ~f.pd1)
 Covering(f) == Full \/ (/\ f.order12 = FALSE /\ (f.n1from2 => f.n1from1) /\ (f.cenv => ~f.n1from1 /\ f.redef = "none" /\ f.cycle = "none")
-                         /\ (f.efn \/ f.dotenvn \/ f.pdn => f.redef = "none" /\ f.cycle = "none" /\ ~f.i2 /\ ~f.cenv))
+                         /\ (f.efn \/ f.dotenvn \/ f.pdn => f.redef = "none" /\ f.cycle = "none" /\ ~f.i2 /\ ~f.cenv)
+                         /\ (f.csib => f.redef = "none" /\ ~f.i2 /\ ~f.cenv /\ ~f.efn /\ ~f.pdn /\ ~f.dotenvn))
 Universe(f) ==
-  [x \in {"main", "i1", "i2", "n1"} |->
+  [x \in {"main", "i1", "i2", "n1", "up"} |->
      CASE x = "main" -> [dir |-> <<>>, dotenv |-> NoEnv,
                          defs |-> {D("services", "smain", 1), D("volumes", "vmain", 1)}
                                   \cup (IF f.redef = "main-different" THEN {D("networks", "shared", 2)} ELSE IF f.redef = "main-same" THEN {D("networks", "shared", 1)} ELSE {})
@@ -46,7 +49,9 @@ Universe(f) ==
                                  D("networks", "shared", 1), D("secrets", "sec1", 1), D("configs", "cfg1", 1)}
                                \cup (IF f.cenv THEN {D("configs", "cfgenv", 3), D("secrets", "secenv", 3)} ELSE {})   \* variant 3: sourced from an environment variable
                                \cup (IF f.redef \in {"bare-same", "bare-different"} THEN {D("networks", "bare", 4)} ELSE IF f.redef = "main-bare-different" THEN {D("networks", "bare", 2)} ELSE {}),
-                       includes |-> (IF f.n1from1 THEN <<Inc("n1", IF f.pdn THEN NestedPd ELSE NoPd, IF f.efn THEN CustomN ELSE NoEf)>> ELSE <<>>) \o (IF f.cycle = "i1-i1" THEN <<Inc("i1", NoPd, NoEf)>> ELSE <<>>)]
+                       includes |-> (IF f.n1from1 THEN <<Inc("n1", IF f.pdn THEN NestedPd ELSE NoPd, IF f.efn THEN CustomN ELSE NoEf)>> ELSE <<>>) \o (IF f.cycle = "i1-i1" THEN <<Inc("i1", NoPd, NoEf)>> ELSE <<>>)
+                                    \o (IF f.csib THEN <<Inc("up", NoPd, NoEf)>> ELSE <<>>)]
+       [] x = "up" -> [dir |-> <<"INC1">>, dotenv |-> NoEnv, defs |-> {D("services", "sup", 1)}, includes |-> <<>>]
        [] x = "i2" -> [dir |-> <<"inc2">>, dotenv |-> NoEnv,
                        defs |-> {D("services", "s2", 1)} \cup (IF f.redef = "same" THEN {D("networks", "shared", 1)} ELSE IF f.redef = "different" THEN {D("networks", "shared", 2)} ELSE {})
                                \cup (IF f.redef = "bare-same" THEN {D("networks", "bare", 4)} ELSE IF f.redef = "bare-different" THEN {D("networks", "bare", 2)} ELSE {}),
